@@ -15,11 +15,13 @@ for _q, _blk in (('sfc_models.sector.Sector.GetVariables', 'self.EquationBlock.E
        ensures=[('fresh', 'fresh(result)'),
                 ('exactly_the_defined_names', 'all(has(%s, s) == any(result[i] == s for i in range(0, len(result))) for s in strings())' % _blk)])
 
-# Sector.AddVariable(varname, desc, eqn: str): (re)defines varname as the blob expression eqn
+# Sector.AddVariable(varname, desc, eqn: str): (re)defines varname as the blob expression eqn.
+# ASSUMED contract (its body goes through Equation.__init__, which re-parses '#' / '=' in the name): only the rejection clause is verified (C11);
+# the rest is exercised by every bounded model run.
 ADDVARIABLE = fn(
     'sfc_models.sector.Sector.AddVariable',
     args=dict(self=Ref('Sector'), varname=STR, desc=Opt(STR), eqn=STR),
-    modifies=['len.*', 'el.*', 'dh.S.R', 'dv.S.R', 'dk', 'tyof', 'f.Equation.*', 'f.Term.*'],
+    modifies=['len.R', 'el.R', 'len.S', 'el.S', 'dh.S.R', 'dv.S.R', 'dk', 'tyof', 'f.Equation.*', 'f.Term.*'],      # lists: the new term list, the key-order list
     ensures=[('defined', 'has(self.EquationBlock.Equations, varname)'),
              ('new_equation_invariant', 'eq_inv(self.EquationBlock.Equations[varname])'),
              ('fresh_equation', 'fresh(self.EquationBlock.Equations[varname]) and fresh(self.EquationBlock.Equations[varname].TermList) and '
@@ -28,6 +30,7 @@ ADDVARIABLE = fn(
                              'self.EquationBlock.Equations[varname].TermList[0].Term == nospace(eqn) and self.EquationBlock.Equations[varname].LeftHandSide == varname'),
              ('other_names_kept', 'all(implies(s != varname, has(self.EquationBlock.Equations, s) == old(has(self.EquationBlock.Equations, s)) and '
                                   'self.EquationBlock.Equations[s] is old(self.EquationBlock.Equations[s])) for s in strings())'),
-             ('old_objects_untouched', "old_objects_unchanged_except_dict(self.EquationBlock.Equations)")],
+             ('old_objects_untouched', "old_objects_unchanged_except_dict(self.EquationBlock.Equations)"),
+             ('key_order_list_is_new_or_kept', 'fresh(keys(self.EquationBlock.Equations)) or keys(self.EquationBlock.Equations) is old(keys(self.EquationBlock.Equations))')],
     raises=[RaisesSpec('ValueError', when="'__' in varname", iff=True, ensures=[('nothing_changed', "heap_unchanged_except('tyof')")])],
 )
